@@ -10,7 +10,8 @@ def users_for(rng, name):
     u = []
     base = name
     alts = [base, base.upper(), base.lower(), base.swapcase(), 'x' + base, base + 'x', base + '.', '.' + base, base.replace('.', 'x', 1), base.replace('.', '-'),
-            base[:-1], base[1:], base + '@', base + '@' + base, 'sub.' + base, base + '.evil.org', base.replace('.', '..'), '']
+            base[:-1], base[1:], base + '@', base + '@' + base, 'sub.' + base, base + '.evil.org', base.replace('.', '..'), '',
+            base + '\n', base + '\n@evil.net', base + '\nx', '\n' + base, 'evil.net\nbob@' + base, base + '\r', base + '\n\n']
     if base.count('.') >= 2:
         parts = base.split('.')
         alts += ['.'.join(parts[:2]) + 'x' + '.'.join(parts[2:]), '.'.join(parts[:-1]) + '-' + parts[-1], parts[0] + '.' + 'Y'.join(parts[1:])]
@@ -54,4 +55,6 @@ def generate(rng, tier):
             r.msg = rng.choice([None, b'no-route'])
             r.accresp = rng.random() < 0.5
     cases += pipeline.guided_cases(rng, 400 if tier == 'thorough' else 25, lambda rng, cfg: pipeline.history(rng, cfg, 10), 'route', rich=False, cfgmod=mod)
+    import focus
+    cases += focus.noserver_cases(rng, 4 if tier == 'thorough' else 1)
     return cases
